@@ -527,6 +527,19 @@ pub fn c06_filter_obj() {
     user_quant(9, 3);
 }
 
+//@ harness: c06_all_emptyarr tier=quick timeout=1200 kind=main mem=16
+//@ encodes: op::array::all, op::logic::truthy_from_evaluated, op::logic::truthy (Parsed::from_value replaced by its recording twin: literals parse to Raw, C02; Value::clone by the bounded model)
+//@ bound: collection [5] (literal), literal predicate v = []: `all` must be false (empty array is falsy)
+#[cfg_attr(kani, kani::proof)]
+#[cfg_attr(kani, kani::unwind(8))]
+#[cfg_attr(kani, kani::stub(std::fmt::format, stub_format))]
+#[cfg_attr(kani, kani::stub(crate::value::Parsed::from_value, crate::value::verif_c05_value::RecParsed::from_value))]
+#[cfg_attr(kani, kani::stub(<serde_json::Value as std::clone::Clone>::clone, value_clone_model))]
+#[cfg_attr(verif_replay, test)]
+pub fn c06_all_emptyarr() {
+    user_quant(6, 0);
+}
+
 //@ harness: c06_wit tier=quick timeout=600 kind=witness mem=8
 //@ encodes: op::logic::if_
 //@ bound: vacuity twin of c06_if_scalars
